@@ -280,6 +280,58 @@ def run_unsolvable(rootfinder=None):
     return spec, run_model(spec)
 
 
+def step_is_singular(spec, res):
+    """the implicit step that raised: is its (linearised) system singular?  Jacobian of the residuals with respect
+    to the new states / algebraic variables, by exact differences on the rational AST evaluator, at the last
+    observed state and the inputs of the failing step"""
+    from ..problems import ast_eval
+    if spec.get("delays"):
+        return False
+    states = [v["name"] for v in spec["states"]]
+    algs = [v["name"] for v in spec["algebraics"]]
+    unknowns = states + algs
+    obs = res["obs"]
+    last = obs[-1]
+    k = res["raised"]["step"]
+    mults = spec.get("multiples", [1] * spec["nsteps"])
+    at = sum(mults[:k + 1])
+    dt = Fraction(spec["dt"]) * mults[k]
+    base = {n: Fraction(v) for n, v in last.items() if n != "time"}
+    for u, ser in spec["series"].items():
+        base[u] = Fraction(ser[min(at, len(ser) - 1)])
+    prev = {n: Fraction(last[n]) for n in states}
+
+    def resid(z):
+        env = dict(base)
+        env.update(z)
+        env["time"] = Fraction(last["time"]) + dt
+        for n in states:
+            env["der(%s)" % n] = (env[n] - prev[n]) / dt
+        return [ast_eval(lhs, env) - ast_eval(rhs, env) for lhs, rhs in spec["equations"]]
+    z0 = {n: base[n] for n in unknowns}
+    r0 = resid(z0)
+    if len(r0) != len(unknowns):
+        return False
+    J = []
+    for n in unknowns:
+        z1 = dict(z0)
+        z1[n] = z0[n] + 1
+        J.append([a - b for a, b in zip(resid(z1), r0)])
+    # determinant by fraction-exact elimination (columns = unknowns)
+    M = [list(col) for col in zip(*J)]
+    n_ = len(M)
+    for i in range(n_):
+        piv = next((r for r in range(i, n_) if M[r][i] != 0), None)
+        if piv is None:
+            return True
+        M[i], M[piv] = M[piv], M[i]
+        for r in range(i + 1, n_):
+            f = M[r][i] / M[i][i]
+            M[r] = [a - f * b for a, b in zip(M[r], M[i])]
+    scale = max(abs(x) for row in J for x in row) or 1
+    return any(abs(M[i][i]) < Fraction(1, 10 ** 9) * scale for i in range(n_))
+
+
 def residual_term(spec, obs_prev, obs_new):
     states = [v["name"] for v in spec["states"]]
     algs = [v["name"] for v in spec["algebraics"]]
@@ -390,6 +442,10 @@ def run(ctx):
         ctx.count("steps", len(obs) - 1)
         if spec["delays"]:
             ctx.count("with_delay")
+        if res["raised"] and step_is_singular(spec, res):
+            # a step without a (unique) solution: raising is what the property asks for
+            ctx.count("raised_on_singular_step")
+            continue
         if res["raised"]:
             ctx.violation("sim/step-raised", {"spec": spec, "raised": res["raised"]}, no_input=True,
                           what="a solvable generated model raised in update(): %s" % res["raised"]["error"])
